@@ -190,6 +190,7 @@ static struct cmb_resourceguard *sub_guard(int i)
     if (k == 2 && x < nbuf) return wh ? &bufs[x]->rear_guard : &bufs[x]->front_guard;
     if (k == 3 && x < noq) return wh ? &oqs[x]->rear_guard : &oqs[x]->front_guard;
     if (k == 4 && x < npq) return wh ? &pqs[x]->rear_guard : &pqs[x]->front_guard;
+    if (k == 5 && x < ncond && x != subs[i].c) return &conds[x]->guard;      /* a condition observing another condition */
     return NULL;
 }
 
